@@ -6,9 +6,10 @@
    codes: 0 agree; 1 match bits differ; 3 specificity differs; 4 pseudo-element
    differs; 5 parser model disagrees with ParseGroup (error / structure);
    6 printer model disagrees with String(); 7 String() does not re-parse to an
-   equivalent selector; 8 the implementation panicked; 9 malformed case, or the dumped tree violates
+   equivalent selector; 8 the implementation panicked; 10 a parsed selector is outside the normal form
+   SelRoundtrip.normal_group or the model's print/parse round trip changes it; 9 malformed case, or the dumped tree violates
    the invariants assumed of html.Parse (Sel.dom_wfb). *)
-From Verif Require Export Css.Sel Css.SelParse Css.SelPrint.
+From Verif Require Export Css.Sel Css.SelParse Css.SelPrint Css.SelRoundtrip.
 From Coq Require Import List NArith ZArith Bool.
 Import ListNotations.
 
@@ -36,42 +37,6 @@ Definition bits (d : node) (m : path -> bool) : N := mask_of (map m (all_paths d
 
 Definition spec_eqb (x y : spec3) : bool :=
   Z.eqb (sp_a x) (sp_a y) && Z.eqb (sp_b x) (sp_b y) && Z.eqb (sp_c x) (sp_c y).
-
-Fixpoint sel_eqb (x y : sel) {struct x} : bool :=
-  let fix list_eqb (l1 l2 : list sel) {struct l1} : bool :=
-    match l1, l2 with
-    | [], [] => true
-    | a :: r1, b :: r2 => sel_eqb a b && list_eqb r1 r2
-    | _, _ => false
-    end in
-  match x, y with
-  | STag a, STag b | SClass a, SClass b | SId a, SId b | SLang a, SLang b | SNever a, SNever b => str_eqb a b
-  | SAttr k v o i, SAttr k' v' o' i' =>
-      str_eqb k k' && str_eqb v v' && Bool.eqb i i' &&
-      match o, o' with
-      | OpExists, OpExists | OpEq, OpEq | OpNe, OpNe | OpIncludes, OpIncludes | OpDash, OpDash
-      | OpPrefix, OpPrefix | OpSuffix, OpSuffix | OpSubstr, OpSubstr => true
-      | _, _ => false
-      end
-  | SRel n g, SRel n' g' =>
-      match n, n' with RIs, RIs | RNot, RNot | RHas, RHas | RHasChild, RHasChild => true | _, _ => false end
-      && list_eqb g g'
-  | SNth a b l t, SNth a' b' l' t' => Z.eqb a a' && Z.eqb b b' && Bool.eqb l l' && Bool.eqb t t'
-  | SOnly t, SOnly t' => Bool.eqb t t'
-  | SInput, SInput | SEmpty, SEmpty | SRoot, SRoot | SLink, SLink
-  | SEnabled, SEnabled | SDisabled, SDisabled | SChecked, SChecked => true
-  | SCompound l pe, SCompound l' pe' => list_eqb l l' && str_eqb pe pe'
-  | SCombined a c b, SCombined a' c' b' =>
-      sel_eqb a a' && sel_eqb b b' &&
-      match c, c' with CDesc, CDesc | CChild, CChild | CAdj, CAdj | CSib, CSib => true | _, _ => false end
-  | _, _ => false
-  end.
-Fixpoint group_eqb (l1 l2 : list sel) : bool :=
-  match l1, l2 with
-  | [], [] => true
-  | a :: r1, b :: r2 => sel_eqb a b && group_eqb r1 r2
-  | _, _ => false
-  end.
 
 (* model observables for one selector of a group *)
 Definition model_obs (d : node) (s : sel) : selobs :=
@@ -123,9 +88,14 @@ Definition sel_check (d : node) (c : selcase) : N :=
           let ec := each_code d g each in
           if negb (N.eqb ec 0) then ec else
           if negb (str_eqb (print_group g) printed) then 6%N else
+          (* every parser result is in the normal form of SelRoundtrip, and the model's own
+             print/parse round trip returns the same structure (C05_parse_print_roundtrip_statement) *)
+          if negb (normal_group g && roundtrip_ok g) then 10%N else
           match rt with
           | None => 7%N
-          | Some g' => if equivalent_on d g g' then 0%N else 7%N
+          | Some g' =>
+              if negb (N.eqb (parse_code printed rt) 0) then 5%N
+              else if equivalent_on d g g' then 0%N else 7%N
           end
       end
   end.
